@@ -587,6 +587,33 @@ def c15b_window_case(rng, idx, params):
             "sample": {"spec": spec, "n": n, "life": life} if idx < 1 else None}
 
 
+def c15b_exact_case(rng, idx, params):
+    """read-only window kinds with the lifespan retaining EXACTLY the look-back the new reading needs (the bounded footprint proved in
+    HexProofs/Footprint/Kinds.lean: `window k` candles before the newest one - SMA / ROC / HL / AROON p, WMA / VWMA / DONCHIAN p - 1,
+    the movement analyses their `length`; measured on the library as well: one candle fewer and the readings differ): the oldest
+    retained candle - list index 0 at every append - is part of every window, so whatever sits on it (the window's extreme, the value
+    that leaves a running sum) must count"""
+    p_ = rng.randint(2, 8)
+    kind = rng.choice(["AROON", "AROON", "DONCHIAN", "HL", "SMA", "WMA", "VWMA", "ROC", "AM:highest", "AM:lowest", "AM:highestbar", "AM:lowestbar",
+                       "AM:rising", "AM:falling", "AM:mean_rising", "AM:value_range"])
+    if kind.startswith("AM:"):
+        spec = {"kind": "AMORPH", "fn": kind[3:], "ind": rng.choice(["high", "low", "close"]), "length": p_, "round": 4}
+        before = p_ - 1 if kind[3:] in ("highestbar", "lowestbar") else p_
+    else:
+        spec = {"kind": kind, "period": p_, "round": 4}
+        before = p_ - 1 if kind in ("WMA", "VWMA", "DONCHIAN") else p_
+    step = rng.choice([1, 60, 300])
+    n = 5 * p_ + rng.randint(8, 30)
+    stream, meta = gen.gen_stream(rng, n, price_style=rng.choice(["walk", "jumpy", "ints", "rising", "falling", "grid"]), ts_style="regular", step=step)
+    spec = dict(spec, life=max(before, 1) * step)
+    scn = {"spec": spec, "stream": stream, "init": 0, "chunks": [1] * n}
+    bad = c15b_check(scn)
+    viol = {"scenario": scn, **bad, "signature": f"C15:{kind_of(spec)}:{bad['clause']}"} if bad else None
+    meta.update({"kind": kind_of(spec), "window_candles": before + 1, "exact": True})
+    return {"nontrivial": True, "key": hash(str(scn)), "violation": viol, "meta": meta,
+            "sample": {"spec": spec, "n": n} if idx < 1 else None}
+
+
 def c15b_replay(w):
     bad = c15b_check(w["scenario"])
     return {"fails": bad is not None, "detail": bad}
